@@ -46,6 +46,7 @@ type V struct {
 	Fn  *Fun
 	E   *Err
 	Src *sx.N // syntax origin, for forms read from source
+	Via string // KFun: the symbol this function value was last fetched through (names the frame of an otherwise unnamed function)
 }
 
 type Vec struct{ E []*V }
